@@ -6,6 +6,8 @@ import (
 	"strconv"
 
 	"github.com/coregx/coregex"
+	"github.com/coregx/coregex/meta"
+	"verif/gen"
 	"verif/obs"
 )
 
@@ -33,5 +35,19 @@ func probe(args []string) {
 			std.FindSubmatchIndex(b), std.FindAllIndex(b, -1),
 			obs.Call(func() string { return fmt.Sprint(cre.FindIndex(b)) }), obs.Call(func() string { return fmt.Sprint(cre.Match(b)) }),
 			obs.Call(func() string { return fmt.Sprint(cre.FindSubmatchIndex(b)) }), obs.Call(func() string { return fmt.Sprint(cre.FindAllIndex(b, -1)) }), pikeRef(p, b))
+	}
+}
+
+// probeCase: vcheck pcaseD <i>: run Engine.FindIndices over the case's haystacks in order on ONE engine and on fresh engines.
+func probeCase(i uint64) {
+	c := gen.D(i)
+	std := regexp.MustCompile(c.Pattern)
+	eng, _ := meta.Compile(c.Pattern)
+	fmt.Printf("pattern=%q strategy=%s\n", c.Pattern, eng.Strategy())
+	for k, h := range c.Haystacks {
+		s, e, ok := eng.FindIndices(h)
+		f, _ := meta.Compile(c.Pattern)
+		fs, fe, fok := f.FindIndices(h)
+		fmt.Printf("h%d %q std=%v reused=%v fresh=%v\n", k, h, std.FindIndex(h), []any{s, e, ok}, []any{fs, fe, fok})
 	}
 }
